@@ -919,7 +919,8 @@ SUse ==     \* visit_UseExternalMacro (+ the Define of `macroname` around it)
   /\ LET u == It.um
          b == Blocked(mx.heap, mx.senv)
          r == AddFills(b.h, b.se, u.fills, 1)
-         E == IF u.whole THEN 0 ELSE MacroDef(u.mname)
+         \* the use-macro expression is evaluated at every use: it may name the macro through a variable (mvar)
+         E == IF u.whole THEN 0 ELSE IF u.mvar # "" THEN MacroDef(Lookup(u.mvar).s) ELSE MacroDef(u.mname)
          \* `macroname`: the text after the last '/' of the use-macro expression
          env1 == SetLocal(envs, "macroname", [t |-> "macroexpr", i |-> F.i])
      IN /\ cells' = [x \in DOMAIN cells \cup {CMacroName(F.i), CSenv(F.i), CGlob(F.i)} |->
